@@ -13,16 +13,22 @@
   * the lexical transport of big integers for EVERY integer (any sign, any size) in the three encodings
     (`ttlv_big_roundtrip`, `xml_big_roundtrip`, `json_big_roundtrip` — both sides of ±2^52) and of byte
     strings (`hex_roundtrip`), from the Go loops `bigIntToBytes` / `bytesToBigInt`.
-  * `key_roundtrip`: for every key of every kind, every format selector, every protocol version (with the
-    1.3 switch of the transparent EC representation) and every encoding,
-    `extract (transport (register key)) = ok key`.
+  * section 4, for every VALID key of every kind, every format of the kind, every protocol version (1.3 switch
+    of the transparent EC representation) and every encoding: ACCEPTANCE (`register_accepts`: the builder
+    registers the key unless its length exceeds an int32, its curve is not one of the four, or it is a multi-prime
+    RSA key in the transparent format) and SOUNDNESS (`key_roundtripF`: the accessors give the key back), for any
+    admissible way of choosing among several requested formats (`key_roundtrip_any_selector`);
+    `key_roundtrip_or_refused`: nothing else can happen to a valid key; a builder panic needs a key that is not
+    valid and happens inside the standard library on that very key (`register_outcomes`).
+  * section 6: the structure-level BINARY transport of the registered object is the C01 round trip
+    (`key_wire_roundtrip`), with `Conforms` as a hypothesis discharged on instances.
   LEVEL NOTE.  (1) The standard library (x509 / elliptic / rsa marshal–parse pairs, `Precompute`,
-  `ScalarBaseMult`) is a parameter: its inverse laws are the fields of `structure Crypto`, i.e. hypotheses of
-  the theorems, never axioms; `Toy.crypto` shows that they are satisfiable.  (2) `transport` here is the
+  `ScalarBaseMult`) is a parameter: its laws (Go ≥ 1.24) are the fields of `structure Crypto`, i.e. hypotheses of
+  the theorems, never axioms; `Toy.crypto` shows that they are satisfiable.  (2) In sections 4-5 `transport` is the
   VALUE-LEVEL transport: every big integer and byte string of the key material goes through the writer and
-  the reader of the chosen encoding.  The structure-level transport (order / tagging / optionality of the
-  fields of KeyBlock, KeyValue, KeyMaterial, enumerations, message framing) is the business of C01/C04 and
-  is taken as the identity on the `KeyBlockV` shape.
+  the reader of the chosen encoding.  For the binary encoding the structure-level transport (order / tagging /
+  optionality of the fields of KeyBlock, KeyValue, KeyMaterial, the slot chosen by the key format) is composed
+  with C01 in section 6; for XML and JSON it is checked on the real code only (engine `key`).
 -/
 import KmipModel.Lemmas.KeyAccessLemmas
 import KmipModel.Lemmas.KeyWire
@@ -414,6 +420,18 @@ theorem ec_invalid_scalar_refused (C : Crypto) (ver : Nat × Nat) (enc : Enc) (k
   | ok o =>
     have := ecPriv_extract_invalid C ver k o hr h
     exact ⟨.range, by simp [roundtripF, h, transportObj_ok, extract, this]⟩
+
+/-- 13i. the transparent RSA public key format needs nothing of the standard library: ANY modulus and ANY Go `int`
+    exponent (also 2^31 and more, which the x509 formats cannot carry) come back equal. -/
+theorem rsa_pub_transparent_any_exponent (C : Crypto) (ver : Nat × Nat) (enc : Enc) (k : C.RsaPub)
+    (hlen : bitLen (C.rsaPubN k) ≤ maxInt32) :
+    roundtripF C.toCryptoOps kfTransparent ver enc (.rsaPub k) = .ok (.rsaPub k) := by
+  have h1 : ¬ bitLen (C.rsaPubN k) > maxInt32 := by omega
+  have hreg : ∃ o, registerRsaPubF C.toCryptoOps kfTransparent k = .ok o := by
+    simp [registerRsaPubF, h1, kfPKCS1, kfX509, kfTransparent]
+  obtain ⟨o, ho⟩ := hreg
+  have hx := rsaPub_extract_transparent C k o ho
+  simp [roundtripF, registerF, ho, transportObj_ok, extract, hx]
 
 /-- 14. the dynamically typed accessors (`CryptoPrivateKey`, `CryptoPublicKey`, `GetResponsePayload.
     PrivateKey/PublicKey`) return the same key as the typed ones, on every key block. -/
